@@ -29,7 +29,7 @@ def run_diff(case: Dict[str, Any]) -> Dict[str, Any]:
 
     from hivemon.common import quiet_stdout, silence_logging
     from hivemon.drive.tracer import Ctx, cleanup, load_case
-    from hivemon.fingerprint import diff_states, fp_reports, fp_state
+    from hivemon.fingerprint import canon_reports, diff_states, fp_reports, fp_state
 
     silence_logging()
     import nrel.hive.app.hive_cosim as hc
@@ -52,6 +52,7 @@ def run_diff(case: Dict[str, Any]) -> Dict[str, Any]:
         def __init__(self):
             self.ev: List[str] = []
             self.t: List[int] = []
+            self.all = collections.Counter()  # every report delivered over the run, canonical form
 
     def fresh():
         ctx = Ctx({"spec": spec, "controller": case.get("controller"), "opts": {"record_generators": False}, "case_seed": 0})
@@ -62,6 +63,7 @@ def run_diff(case: Dict[str, Any]) -> Dict[str, Any]:
 
         def handle(reports, runner_payload):
             rec.ev.append(fp_reports(reports))
+            rec.all.update(canon_reports(reports))
             rec.t.append(int(runner_payload.s.sim_time))
             orig(reports, runner_payload)
 
@@ -135,6 +137,31 @@ def run_diff(case: Dict[str, Any]) -> Dict[str, Any]:
                 violate("split-run-events-differ", f"events of step {k} differ between crank(1) x n and the split {parts[:12]} ({len(rec.ev)} vs {len(ref.ev)} flushes)", parts=parts[:30])
             cnt["c15_compositions"] += 1
             cnt["c15_parts"] += len(parts)
+        # deferred delivery: some calls are made with flush_events=False (their reports stay queued), the next flushing call
+        # hands everything over - nothing may be lost or duplicated over the run, and the states are the same
+        ctx, rp, rec = fresh()
+        ctxs.append(ctx)
+        done = 0
+        parts = []
+        left = n
+        while left > 0:
+            a = min(left, rnd.choice([1, 2, 3, 5, 9]))
+            parts.append(a)
+            left -= a
+        for j, a in enumerate(parts):
+            defer = j < len(parts) - 1 and rnd.random() < 0.5
+            with quiet_stdout():
+                rp = hc.crank(rp, a, flush_events=not defer).runner_payload
+            done += a
+            cnt["c15_deferred_flush_calls" if defer else "c15_flushing_calls_after_deferral"] += 1
+            if fp_state(rp.s, ids=False) != ref_states[done - 1]:
+                violate("split-run-state-differs", f"after {done} steps (some calls with flush_events=False): state differs from crank(1) x {done}", parts=parts[:30], diff=diff_states(ref_full[done - 1], rp.s, ids=False))
+                break
+        else:
+            if rec.all != ref.all:
+                lost, extra = ref.all - rec.all, rec.all - ref.all
+                ex = next(iter(lost or extra))
+                violate("deferred-flush-loses-or-duplicates-events", f"run with some calls made with flush_events=False delivered {sum(rec.all.values())} reports, crank(1) x n delivered {sum(ref.all.values())}: {sum(lost.values())} lost, {sum(extra.values())} extra, e.g. {ex[0]}", parts=parts[:30])
         # batch runner over the same interval
         spec2 = dict(spec)
         spec2["sim"] = dict(spec["sim"])
@@ -148,6 +175,7 @@ def run_diff(case: Dict[str, Any]) -> Dict[str, Any]:
 
         def handle(reports, runner_payload, orig=orig, rec=rec):
             rec.ev.append(fp_reports(reports))
+            rec.all.update(canon_reports(reports))
             rec.t.append(int(runner_payload.s.sim_time))
             orig(reports, runner_payload)
 
@@ -217,7 +245,7 @@ def build_cases(tier, seed):
     return cases
 
 
-FLOORS = {"quick": {"c15_ticks_checked": 5000, "c15_compositions": 100, "c15_boundaries_compared": 400, "c15_batch_runs": 50, "c15_step_beyond_end_checks": 50, "c15_reinjections": 150}, "thorough": {"c15_ticks_checked": 100000, "c15_compositions": 1500, "c15_boundaries_compared": 6000, "c15_batch_runs": 500, "c15_step_beyond_end_checks": 500, "c15_reinjections": 2000}}
+FLOORS = {"quick": {"c15_ticks_checked": 5000, "c15_compositions": 100, "c15_boundaries_compared": 400, "c15_batch_runs": 50, "c15_step_beyond_end_checks": 50, "c15_reinjections": 150, "c15_deferred_flush_calls": 200}, "thorough": {"c15_ticks_checked": 100000, "c15_compositions": 1500, "c15_boundaries_compared": 6000, "c15_batch_runs": 500, "c15_step_beyond_end_checks": 500, "c15_reinjections": 2000, "c15_deferred_flush_calls": 3000}}
 
 
 def main(tier, seed):
